@@ -12,13 +12,13 @@ from mc.common import HarnessError, Stats, pmap, safe, shards, scratch_dir, rm_s
 PROPERTY = 'C13'
 LEVEL = 'model_checking'
 RULE = ('state = the four process-global stores; event = one mini-batch handed to compute_cardinalities / compute_value_counts / compute_coverage. Every row sequence of length '
-        'n<=4 (quick) / n<=5 (thorough) over two columns with cells {"", u, v} x EVERY composition of n into consecutive batches x rare-value thresholds {0,1,2} x histogram '
+        'n<=4 (quick) / n<=5 (thorough) over two columns with cells {"", u, uü} x EVERY composition of n into consecutive batches x rare-value thresholds {0,1,2} x histogram '
         'bounds {1,2,30000}; differential oracle (final stores of every composition == those of the single-batch history) + absolute oracle (exact recount); coverage family over '
         '{"", "{}", NA, u} x three missing-symbol sets; end-to-end family through the ranking task (name annotations, value_repetitions.json, rare_values.tsv). '
         'states = distinct (rows consumed, store contents) reached; transitions = batches applied. non-trivial = histories with >= 2 batches')
 ASSUMPTIONS = ['cardinality sketch used far below its warm-up capacity (exact range); 32-bit hash collisions excluded by the statement']
 
-CELLS = ['', 'u', 'v']
+CELLS = ['', 'u', 'u\u00fc']   # 'uü' and 'u' differ only by a non-ASCII character
 COLS = ['c1', 'c2']
 
 
